@@ -33,6 +33,18 @@ DIRECTIONS = {
          "library objects, keyword-only use of rarely passed documented arguments); ambient torch state that users "
          "legitimately change (torch.set_default_dtype(torch.float32), torch.no_grad(), torch.set_num_threads, a model moved "
          "with .double()/.to()); public functions and arguments in the anchored files that no example or test exercises.",
+    "6": "several live objects at once (two states, two RBMs, two evaluators, two observables of the same class) whose "
+         "behaviour leaks into each other through class attributes, module-level globals, default arguments evaluated once, "
+         "or shared tensors; a method that one subclass overrides (DensityMatrix vs the wavefunctions, PurificationRBM vs "
+         "BinaryRBM, VarianceBasedEarlyStopping vs EarlyStopping) so that only the entry points going through the override are "
+         "wrong; errors that build up slowly (a buffer reused across calls, a counter never reset, rounding that accumulates) "
+         "and are invisible in the first dozen calls or epochs; zero-size and one-size edges (a batch of one row, one epoch, "
+         "one chain, one hidden unit, num_samples equal to num_chains, a period larger than the run, an empty list of bases "
+         "or callbacks); numeric arguments given as numpy / torch scalars (np.int64 epochs or period, np.float32 learning "
+         "rate or tolerance, a 0-d tensor as k) or as Python bools; a callback or observable that legitimately touches the "
+         "model or the callback list while it is being called; two documented features used together that are each "
+         "exercised alone by the examples (saving during training with early stopping, statistics with user-given chains "
+         "and overwrite, rotation with a user dictionary passed positionally).",
 }
 
 
